@@ -40,6 +40,7 @@ static const char* names[] = {
     "a retire stalled across two clock units must not make a younger table collectable",
     "16-bit timestamp wrap: growth just before the wrap, gc() 64 s later",
     "block 1: fill_n/copy_n/for_each racing with ensure on another block",
+    "the clock crosses a cooling unit and a growth happens while gc() runs: gc() || (advance 64 s, ensure) || snapshot reader",
 };
 int harness_configs() { return sizeof(names) / sizeof(names[0]); }
 const char* harness_config_name(int c) { return names[c]; }
@@ -98,6 +99,16 @@ void harness_main(int cfg) {
         std::thread rd([&] { read_through(snap, t_super); });
         grow.join(); gc.join(); rd.join();
         read_through(snap, t_super);
+      }
+      break;
+    }
+    case 8: {
+      { ConcurrentVector<Elem, 1> v; v.ensure(0);
+        auto snap = v.snapshot(); std::atomic<int64_t> t_super{0}; bbmc::background(&t_super, sizeof t_super);
+        std::thread grow([&] { bbmc::advance_clock(64 * SEC); t_super.store(bbmc::now_ns(), std::memory_order_relaxed); v.ensure(1); });   // superseded no earlier than t_super
+        std::thread gc([&] { v.gc(); });
+        grow.join(); gc.join();
+        read_through(snap, t_super.load());
       }
       break;
     }
